@@ -16,7 +16,7 @@ DOC = {
         'C12.R2': 'HashCache::get: Some only if modified_timestamp_ms == current and file_len == current (equality tests, both guarding the hit)',
         'C12.R3': 'put and get compute the time stamp with the same conversion chain (modified -> duration_since(UNIX_EPOCH) -> as_millis), and the chain has no lossy step (fallback constant, clamp, saturation): different modification times give different stamps',
         'C12.R5': 'a cached hash is returned only for a file that can still be opened: on the hit path of hash_file / hash_transformed the file is opened (error propagated) before the cached value is returned - stat() needs no read permission, so without it an unreadable file is reported from the cache while the uncached run warns and leaves it out',
-        'C12.R4': 'hash_file / hash_transformed: load_hash and store_hash use the same key and metadata; metadata is captured before hashing; store follows a successful hash',
+        'C12.R4': 'hash_file / hash_transformed: load_hash and store_hash use the same key and metadata; metadata is captured before hashing; store follows a successful hash and is the last fallible-free step (no Err return after it)',
     },
     'not_decided': 'inode reuse within one millisecond; sled durability; that every content change changes mtime or length (premise)',
     'assumptions': ['typed_sled::Tree keeps entries of different tree ids apart'],
@@ -274,6 +274,12 @@ def r4(ctx):
         tries = [c for c in b.calls(r'as std::ops::Try>::branch$') if b.dominates(c.bb, st[0].bb) and any(h in backslice(b, [c.args[0]]).calls for h in hs)]
         sw_ok = bool(tries)
         ctx.check(sw_ok, rule, P + '|store-after-success', st[0].where(), 'store_hash is reached only after the hash computation succeeded', 'a hash can be stored although the computation failed')
+        # ... and nothing that can still fail comes after the store: a value is cached only for a run of the function that returns Ok
+        from ..analysis import return_variants_from
+        rv_after = return_variants_from(b, st[0].ret) if st[0].ret is not None else set()
+        ctx.check('Err' not in rv_after, rule, P + '|store-is-last', st[0].where(), 'after store_hash the function can only return Ok',
+                  'store_hash is followed by a step that can still fail (the function can return Err after the value was cached): for --transform the hash of the output is cached before the exit '
+                  'status of the command is checked, so the partial output of a failed command is served from the cache by the next run - files on which the transform fails are then reported as duplicates of each other')
         # a hit returns the cached value without hashing
         hit_ret = [bi for bi in b.return_blocks()]
         ok = ld[0].bb in b.dominators()[first_hash.bb]
